@@ -26,6 +26,7 @@ def design_check(module, cfg, **kw):
         if os.path.exists(path):
             with open(path) as fh:
                 return json.load(fh)
+    kw.setdefault('heap', '4g')
     res = core.tlc_check(module, cfg, **kw)
     if path and res.get('ok'):
         os.makedirs(cache, exist_ok=True)
@@ -283,7 +284,7 @@ def sizes_stage(rep, tier, seed, rng, prop, names, quick_n=40):
     the next response (WideEvery = 2: every second message takes two units)"""
     res = design_check('MC_Replication.tla', 'MC_Replication_sizes.cfg', timeout=1800)
     rep.add_design('MC_Replication_sizes.cfg', res)
-    pool = core.tlc_simulate('MC_Replication.tla', 'Sim_Replication_sizes.cfg', 500 if tier == 'quick' else 5000, 18, seed + 3)
+    pool = core.tlc_simulate('MC_Replication.tla', 'Sim_Replication_sizes.cfg', 500 if tier == 'quick' else 5000, 18, seed + 3, timeout=2400)
     sims, _ = select(pool, quick_n if tier == 'quick' else 400, rng)
     b3 = [to_stimulus(b, 8000 + i, {'minISR': 2, 'fetchMax': 2, 'rf': 3, 'wideEvery': 2})
           for i, b in enumerate(sims) if len(b) > 1]
@@ -354,14 +355,14 @@ def run(rep, tier, seed, replay, prop, names, relevant, rule, rf1=False, mc_quic
     rng = random.Random(seed)
     # coverage-guided selection: simulate a large pool (cheap), replay the subset that covers the
     # most distinct (action, abstract situation) / action-pair / action-triple features
-    pool = core.tlc_simulate('MC_Replication.tla', 'Sim_Replication.cfg', 1500 if tier == 'quick' else 20000, 18, seed)
+    pool = core.tlc_simulate('MC_Replication.tla', 'Sim_Replication.cfg', 1500 if tier == 'quick' else 20000, 18, seed, timeout=2400)
     # + the scenario family "a replica catches up across a leader change and is then restarted / elected"
-    pool += core.tlc_simulate('MC_ReplicationFam.tla', 'Sim_ReplicationFam.cfg', 700 if tier == 'quick' else 7000, 18, seed + 5)
+    pool += core.tlc_simulate('MC_ReplicationFam.tla', 'Sim_ReplicationFam.cfg', 700 if tier == 'quick' else 7000, 18, seed + 5, timeout=2400)
     # + "the in-sync set changes while records are in flight", "a replication response is delivered late" and
     # "a replica that led and then followed leads again"
     for i, fam in enumerate(('isr', 'late', 'again')):
         pool += core.tlc_simulate('MC_ReplicationFam2.tla', 'Sim_ReplicationFam2_%s.cfg' % fam, 500 if tier == 'quick' else 5000,
-                                  18, seed + 7 + i)
+                                  18, seed + 7 + i, timeout=2400)
     sims, nfeat = select(pool, 150 if tier == 'quick' else 1800, rng)
     rep.cov['selection'] = {'pool': len(pool), 'selected': len(sims), 'features_covered': nfeat}
     behaviours += [to_stimulus(b, i + 1) for i, b in enumerate(sims) if len(b) > 1]
@@ -373,7 +374,7 @@ def run(rep, tier, seed, replay, prop, names, relevant, rule, rf1=False, mc_quic
         # replication factor 1 (fast path): one replica, min ISR 1
         res = design_check('MC_Replication.tla', 'MC_Replication_rf1.cfg', timeout=1800)
         rep.add_design('MC_Replication_rf1.cfg', res)
-        sims = core.tlc_simulate('MC_Replication.tla', 'Sim_Replication_rf1.cfg', 40 if tier == 'quick' else 400, 14, seed + 1)
+        sims = core.tlc_simulate('MC_Replication.tla', 'Sim_Replication_rf1.cfg', 40 if tier == 'quick' else 400, 14, seed + 1, timeout=2400)
         b1 = [to_stimulus(b, 5000 + i, {'minISR': 1, 'fetchMax': 2, 'rf': 1}) for i, b in enumerate(sims) if len(b) > 1]
         with core.scratch(prop.lower()) as d:
             trace = execute(b1, d, timeout=3000)
@@ -384,7 +385,7 @@ def run(rep, tier, seed, replay, prop, names, relevant, rule, rf1=False, mc_quic
         # stream override): LEADER / NONE publishes go on, ALL publishes are stored but never acknowledged
         res = design_check('MC_Replication.tla', 'MC_Replication_rf1min2.cfg', timeout=1800)
         rep.add_design('MC_Replication_rf1min2.cfg', res)
-        sims = core.tlc_simulate('MC_Replication.tla', 'Sim_Replication_rf1min2.cfg', 20 if tier == 'quick' else 200, 12, seed + 4)
+        sims = core.tlc_simulate('MC_Replication.tla', 'Sim_Replication_rf1min2.cfg', 20 if tier == 'quick' else 200, 12, seed + 4, timeout=2400)
         b1m = [to_stimulus(b, 5500 + i, {'minISR': 2, 'fetchMax': 2, 'rf': 1}) for i, b in enumerate(sims) if len(b) > 1]
         with core.scratch(prop.lower()) as d:
             trace = execute(b1m, d, timeout=3000)
@@ -395,7 +396,7 @@ def run(rep, tier, seed, replay, prop, names, relevant, rule, rf1=False, mc_quic
         # batches of up to two messages with mixed ack policies (BatchMaxMessages = 2)
         res = design_check('MC_Replication.tla', 'MC_Replication_batch.cfg', timeout=1800)
         rep.add_design('MC_Replication_batch.cfg', res)
-        sims = core.tlc_simulate('MC_Replication.tla', 'Sim_Replication_batch.cfg', 25 if tier == 'quick' else 300, 14, seed + 2)
+        sims = core.tlc_simulate('MC_Replication.tla', 'Sim_Replication_batch.cfg', 25 if tier == 'quick' else 300, 14, seed + 2, timeout=2400)
         # every other behaviour sends the members of a batch 25 ms apart, so that the later ones
         # arrive while the leader is waiting for the batch to fill (a different code path)
         b2 = [to_stimulus(b, 7000 + i, {'minISR': 2, 'fetchMax': 2, 'rf': 3, 'batch': 2, 'gapMs': 25 * (i % 2)})
